@@ -4,5 +4,7 @@ CONSTANTS
   OneFifo = TRUE
   CrossTag = FALSE
   Reuse = FALSE
+  Handover = FALSE
+  Requeue = FALSE
 INVARIANTS Prefix NoCrossing Complete
 CHECK_DEADLOCK FALSE
